@@ -246,12 +246,17 @@ def evaluate_z3_re_loop(
     if expr.decl().kind() != z3.Z3_OP_RE_LOOP:
         return Nothing
 
-    return Some(
-        construct_result(
-            lambda args: f"{args[0]}{{{expr.params()[0]},{expr.params()[1]}}}",
-            children_results,
-        )
-    )
+    def constructor(args):
+        # Bounds are parameters in ((_ re.loop lo hi) r) and arguments in (re.loop r lo hi).
+        lo, hi = expr.params() if len(expr.params()) == 2 else args[1:3]
+        if lo > hi:
+            return "(?!)"  # the empty language
+        return f"(?:{args[0]}){{{lo},{hi}}}"
+
+    if len(expr.params()) != 2 and len(children_results) != 3:
+        return Nothing
+
+    return Some(construct_result(constructor, children_results))
 
 
 def evaluate_z3_seq_to_re(
